@@ -274,6 +274,30 @@ def constructSupplemented (Infer : InferFn)
   | .error e => .error e
   | .ok std => own c std
 
+/-! ## Sequences of calls in one process -/
+
+abbrev Result := Except Err (List (String × Option Ty))
+
+/-- The constructor calls of a process, in order. spox keeps no state between constructor calls:
+    every call is answered by `construct` alone. (Tied to the code by the call-history
+    correspondence: sequences of calls on shared Vars, each compared with the model.) -/
+def runHistory (Infer : InferFn) : List Call → List Result
+  | [] => []
+  | c :: cs => construct Infer c :: runHistory Infer cs
+
+def lookupK {K} [DecidableEq K] (k : K) : List (K × Result) → Option Result
+  | [] => none
+  | (k', r) :: rest => if k' = k then some r else lookupK k rest
+
+/-- What an implementation that memoises inference under `key` would answer. -/
+def runMemo {K} [DecidableEq K] (key : Call → K) (Infer : InferFn) :
+    List (K × Result) → List Call → List Result
+  | _, [] => []
+  | cache, c :: cs =>
+    match lookupK (key c) cache with
+    | some r => r :: runMemo key Infer cache cs
+    | none => construct Infer c :: runMemo key Infer ((key c, construct Infer c) :: cache) cs
+
 /-! ## The same node, built directly ("hand-built"), and the operations inference is invariant under -/
 
 def renameNode (σ : String → String) (n : NodeView) : NodeView :=
